@@ -147,6 +147,7 @@ Theorem C13_exit_points_refuted :
   y_exit snapshot (EMeth (s "log") (s "Default") (s "Fatal")) = HostExit
   /\ y_exit snapshot (EMeth (s "log/slog") (s "NewLogLogger") (s "Fatal")) = HostExit
   /\ y_exit snapshot (EMeth (s "flag") (s "NewFlagSet") (s "Parse")) = HostExit
+  /\ y_exit snapshot (EFunc (s "flag") (s "Parse")) = HostExit
   /\ y_exit snapshot (EMeth (s "log") (s "New") (s "Fatal")) = Recoverable
   /\ y_exit snapshot (EFunc (s "log") (s "Fatal")) = Recoverable.
 Proof. exact exit_refuted_snapshot. Qed.
